@@ -87,6 +87,15 @@ func ResourceCorpus(packageRoot string, seed int64, variant, nRandom int) *Schem
 		{Name: "ztype", Type: P("string"), Optional: true}, // create-only
 	}})
 
+	// annotated names of which one is a string prefix (not a path prefix) of another
+	s.Add(&Named{Ident: Ident{"AnnotatedPrefix", ns}, Kind: "record", Fields: []Field{
+		{Name: "id", Type: P("int64"), Optional: true}, // read-only
+		{Name: "identifier", Type: P("string")},       // create-only
+		{Name: "f1", Type: R(ns, "Leaf"), Optional: true},  // f1/s read-only
+		{Name: "f10", Type: R(ns, "Leaf"), Optional: true}, // f10/s create-only
+		{Name: "name", Type: P("string")},
+	}})
+
 	pt := paramTypes(ns)
 	allParams := func(prefix string, n int, off int) []Field {
 		var fs []Field
@@ -199,6 +208,11 @@ func ResourceCorpus(packageRoot string, seed int64, variant, nRandom int) *Schem
 	ann3.ReadOnly = []string{"zstamp"}
 	ann3.CreateOnly = []string{"ztype"}
 	s.Resources = append(s.Resources, ann3)
+	ann4 := collection("vr.annpfx", nil, "annpfx", "annId", P("int64"), R(ns, "AnnotatedPrefix"))
+	ann4.Methods = restMethods(restMethodsCollection, true, false, nil, false)
+	ann4.ReadOnly = []string{"id", "f1/s"}
+	ann4.CreateOnly = []string{"identifier", "f10/s"}
+	s.Resources = append(s.Resources, ann4)
 
 	if nRandom > 0 {
 		randomResources(s, ns, seed, nRandom)
